@@ -628,9 +628,13 @@ def _chains_to_switches(fd, log):
                     cases.append((lo, hi, t2[4]))
                     cur = F
                 else:
-                    chain.pop()
-                    default = cur
-                    break
+                    # open-ended: S >= lo (up to the largest value of the type)
+                    cases.append((lo, lo + 65535, T))       # a window, not the type range: rules enumerate case values
+                    cur = F
+            elif op in ("<=", "<"):
+                hi = c if op == "<=" else c - 1
+                cases.append((hi - 65535, hi, T))
+                cur = F
             else:
                 chain.pop()
                 default = cur
